@@ -329,7 +329,10 @@ def apply_op(topo, flavour, op):
     elif kind == 'set_prop':
         ref, pname, code = a
         e = _need(R.elem(ref))
-        e.set_property(pname if pname != 'type_node' else 'type', prop_value(f, Labels, Capacities, pname, code))
+        if pname == 'names':
+            e.set_properties(name=code)          # the plural entry point
+        else:
+            e.set_property(pname if pname != 'type_node' else 'type', prop_value(f, Labels, Capacities, pname, code))
     elif kind == 'unset_prop':
         ref, pname = a
         e = _need(R.elem(ref))
